@@ -1,8 +1,15 @@
+import CharsetProof.Lemmas.Merge
+import CharsetProof.Lemmas.SortSmall
 import CharsetProof.Lemmas.SortSorted
 import CharsetProof.Props.C04
 import CharsetProof.Props.C10
+import CharsetProof.Props.C10c
 import CharsetProof.Props.C19
 open Charset
+#print axioms C19_result_sorted_current
+#print axioms mergeModel_sorted
+#print axioms sortUnstableSmall_pairwise
+#print axioms sortUnstableSmall_perm
 #print axioms C19_cutoff_partial
 #print axioms C19_monotone_partial
 #print axioms C19_listed_iff_partial
